@@ -733,6 +733,15 @@ class Stack:
         else:
             L.append("    static void fill(field_t &) {}")
         L.append("    static model::P make_model() { return %s; }" % self.model_expr())
+        if d >= 2 and self.layers[-1]["kind"] == "array" and self.layers[-2]["kind"] == "strided":
+            # the row-major layer allocates its own storage when the pack ends with its extents
+            head = [self.cfg_expr(i) for i in range(d - 2)]
+            L.append("    static constexpr bool has_extents_form = true;")
+            L.append("    template <int = 0> static field_t make_from_extents() { return field_t(covfie::make_parameter_pack(%s)); }" % ", ".join(head + [self.cfg_expr(d - 2)]))
+            L.append("    template <int = 0> static field_t make_from_named_extents() { typename B%d::configuration_t extents = %s; return field_t(covfie::make_parameter_pack(%s)); }"
+                     % (d - 2, self.cfg_expr(d - 2), ", ".join(head + ["extents"])))
+        else:
+            L.append("    static constexpr bool has_extents_form = false;")
         if like is not None:
             oi = [i for i, l in enumerate(self.layers) if l["kind"] in ORDER][0]
             ext = self.layers[oi]["ext"]
